@@ -19,7 +19,7 @@ CHECK = dict(
     units=[
         dict(name="cloner", dir="internal/dnsmsg", src="C07/cloner", runs=[
             dict(name="sequential", run="^TestVerifC07Cloner$", quick=2500, thorough=78000, shards_quick=2, shards_thorough=6, env=_env),
-            dict(name="concurrent", run="^TestVerifC07ClonerConcurrent$", quick=80, thorough=1200, shards_thorough=4, race=True, env=_env),
+            dict(name="concurrent", run="^TestVerifC07ClonerConcurrent$", quick=50, thorough=1200, shards_thorough=4, race=True, env=_env),
         ]),
         dict(name="stack", dir="internal/dnssvc", src="C07/stack", runs=[
             dict(name="sequential", run="^TestVerifC07StackSequential$", quick=3000, thorough=96000, shards_thorough=6, env=_env),
